@@ -149,6 +149,23 @@ def check_contact(ctx):
             l2.append(" ".join(["ctfm", interp[0], frac_s(F(fill)), "0", frac_s(F(t0)), frac_s(F(dt)), ",".join(f"{i}:{j}" for i, j in pairs),
                                 qmat(Gp.real), qmat(Gp.imag), qmat(lookup)]))
             meta.append((res[kind][0], cj, kind, len(pairs), np.abs(G).max() * 2 + abs(fill), extra, okm))
+        # raw acquisition data are often integers (ADC counts): contact TFM with its default weights gives the same image for
+        # the same numbers held as int16 / int32 as for float64 (FMC, complete, and HMC)
+        if np.isrealobj(G) and np.all(G == np.round(G)) and np.abs(G).max() < 3000:
+            for kind in ("fmc", "hmc"):
+                r64, pairs, fr64 = res[kind]
+                for idt in (np.int16, np.int32):
+                    fri = fixtures.make_frame(np.asarray(fr64.timetraces).real.astype(idt), t0, dt, [i for i, _ in pairs], [j for _, j in pairs], probe, None)
+                    try:
+                        ri = tfm.contact_tfm(fri, grid, v, interpolation=interp, fillvalue=fill).res
+                    except Exception as e:
+                        ctx.violate(f"contact TFM raised {type(e).__name__} on {np.dtype(idt).name} data ({kind})", {**cj, "capture": kind}, {"kind": "contact_integer_data"})
+                        continue
+                    ctx.count("contact:integer_data")
+                    if not close(np.asarray(ri, dtype=complex), np.asarray(r64, dtype=complex), np.abs(G).max() * 2 + abs(fill), len(pairs)):
+                        ctx.violate(f"contact TFM ({kind}) of {np.dtype(idt).name} data is not the image of the same numbers held as float64 "
+                                    f"(result dtype {np.asarray(ri).dtype}, max difference {np.abs(np.asarray(ri, dtype=complex) - np.asarray(r64, dtype=complex)).max():.3g})",
+                                    {**cj, "capture": kind, "dtype": np.dtype(idt).name}, {"kind": "contact_integer_data"})
         ctx.case(("contact", probe.locations.coords.tobytes(), grid.to_1d_points().coords.tobytes(), v, interp), numel >= 2,
                  sample={"op": "contact_tfm", "numel": numel, "gridpoints": grid.numpoints, "interp": interp} if numel >= 2 else None)
         ctx.count("contact:" + interp)
